@@ -170,6 +170,12 @@ C["C17"]["harnesses"] += [
     H("ZZWebseedCap", "torrent", "real newTorrent with 0..12 web-seed sources and WebseedMaxSources 0..12: no crash, at most the maximum kept, nothing dropped within the limit", T(45, 900, flags=["-nospawn"]), T(45, 900, flags=["-nospawn"]), replay="model"),
 ]
 
+C["C12"]["harnesses"] += [
+    H("ZZTwoParty", "internal/mse", "real HandshakeOutgoing and HandshakeIncoming as two goroutines over an in-memory pipe (whole or byte-by-byte transport), same key, each of the four pads 0..1 bytes, initial payload 0 or 2 bytes, offer {plain, rc4, both}, responder selecting none / plaintext / rc4 / an invalid value: fails on both sides or both agree on one offered cipher; initial payload and a message in each direction are read unchanged", T(120, 900, 4, 5), T(120, 900, 4, 5), replay="model"),
+    H("ZZTwoPartyWrongKey", "internal/mse", "different keys never complete on both sides", T(120, 900), T(120, 900), replay="model"),
+]
+C["C12"]["assumptions"] += ["Diffie-Hellman replaced by 'both sides derive the same opaque secret'; SHA-1 of the secret by arbitrary fixed strings per label (req1 not starting with a zero byte); HASH(req2,SKEY) by an injective function of the key; RC4 by XOR with a fixed non-repeating keystream per key label; pads are zero bytes: excludes only the 2^-64 coincidence of a marker occurring inside padding", "encryption policy matrix of btconn.Accept/Dial not covered yet"]
+
 for pid, spec in C.items():
     spec = dict(property=pid, **spec)
     json.dump(spec, open(os.path.join(D, pid + ".json"), "w"), indent=1)
